@@ -52,7 +52,8 @@ ConfsA == { Conf(T(2, 1, 1), T(2, 1, 1), {}, "O", {L("O", "A"), L("O", "B")}, <<
             Conf(T(4, 0, 0), T(3, 1, 0), {"A"}, "A", {L("O", "A")}, <<"A">>, 1, {}, {}) }
 \* (whether an address can receive is a fact about the address: the same in every configuration of a family)
 ConfsB == { Conf(T(1, 1, 2), T(1, 2, 1), {"B"}, "A", {L("O", "A"), L("A", "B")}, <<"A">>, 2, {"s2"}, {}),
-            Conf(T(0, 4, 0), T(0, 2, 2), {}, "B", {L("O", "B"), L("A", "B")}, <<"B">>, 1, {"s2"}, {L("A", "B")}) }
+            \* (A -> O goes through B and fails at the second hop; B -> O and O -> B fail outright)
+            Conf(T(0, 4, 0), T(0, 2, 2), {}, "B", {L("O", "B"), L("A", "B")}, <<"B">>, 1, {"s2"}, {L("O", "B")}) }
 ConfsC == { Conf(T(2, 1, 1), T(2, 1, 1), {}, "A", {L("O", "A"), L("A", "B")}, <<"A">>, 2, {"s2"}, {}),
             Conf(T(2, 1, 1), T(1, 1, 2), {"B"}, "O", {L("O", "A"), L("O", "B"), L("A", "B")}, <<>>, 3, {"s2"}, {L("O", "B")}) }
 ConfsD == { Conf(T(3, 1, 0), T(2, 2, 0), {}, "O", {L("O", "A"), L("O", "B")}, <<>>, 1, {}, {}) }
